@@ -23,6 +23,17 @@ Theorem uris_is_fold : forall (hist : list zevent) zk init w s,
     forall k, alookup k m = fold_spec zk init hist k.
 Proof. exact AnnounceProofs.uris_is_fold. Qed.
 
+(* The event-delivery layer: however the events reach the loop - one at a time or in bursts that are already waiting
+   in the channel when the loop runs again - the snapshot published once a burst is consumed is the fold of ALL
+   events delivered so far (no event of a burst is dropped, none is applied to a stale base). *)
+Theorem bursts_publish_fold : forall (bursts : list (list zevent)) zk init w s,
+  read w s = Some (Cell zk init) -> NoDup (map fst init) ->
+  exists ws s' m,
+    run_bursts bursts w s = Done (ws, s') /\
+    read (last ws w) s' = Some (Cell zk m) /\ NoDup (map fst m) /\
+    forall k, alookup k m = fold_spec zk init (concat bursts) k.
+Proof. exact AnnounceProofs.bursts_publish_fold. Qed.
+
 (* Snapshots handed out earlier are never modified afterwards: cut any history anywhere; the snapshot published at
    the cut (and every other cell that existed then) reads the same after the rest of the history, and no cell
    written by the rest of the history existed at the cut. *)
@@ -123,7 +134,8 @@ Theorem possible_complete : forall fl o1 o2 r schemes,
 Proof. exact ChooseProofs.possible_complete. Qed.
 
 (* ---- non-vacuity ------------------------------------------------------------------------------------------ *)
-(* A history over two znodes with an add, a malformed update, a weight-less update, a replacement and a deletion;
+(* A history over two znodes with an add, a malformed update (whose failed decoding left weights in the struct), a
+   weight-less update, a replacement and a deletion;
    then a selection with priorities [https; http] over the surviving announcement at r = 3/4. *)
 Example c19_nonvacuous :
   let zk := [x2f; x7a] in
@@ -133,7 +145,7 @@ Example c19_nonvacuous :
   let https := [x68; x74; x74; x70; x73] in
   let a1 := [(Host http [x61], 1)] in
   let a2 := [(Host https [x62], 1); (Host http [x62], 3)] in
-  let hist := [Added n1 (PDecoded a1); Added n2 (PDecoded a1); Updated n1 PMalformed; Updated n1 (PDecoded []);
+  let hist := [Added n1 (PDecoded a1); Added n2 (PDecoded a1); Updated n1 (PMalformed a2); Updated n1 (PDecoded []);
                Updated n2 (PDecoded a2); Removed n1] in
   (exists w s, run (map to_tce hist) 0%nat (St [Cell zk []] []) = Done (w, s) /\
                read w s = Some (Cell zk [([x2f; x32], a2)]) /\
@@ -149,6 +161,7 @@ Example c19_nonvacuous :
 Proof. vm_compute. repeat split; eauto. Qed.
 
 Print Assumptions uris_is_fold.
+Print Assumptions bursts_publish_fold.
 Print Assumptions snapshots_immutable.
 Print Assumptions old_snapshot_is_fold_of_prefix.
 Print Assumptions service_malformed_ignored.
